@@ -149,6 +149,8 @@ class ModuleInfo:
         self.bindings = {}      # name -> list of (kind, payload)
         self.functions = {}
         self.classes = {}
+        self.toplevel_touched = {}
+        self.toplevel_touching = {}
         self._index(self.tree.body)
 
     def __repr__(self):
@@ -191,6 +193,41 @@ class ModuleInfo:
                         if isinstance(s2, ast.ImportFrom):
                             for a in s2.names:
                                 self._bind(a.asname or a.name, "typing", None)
+                elif not (all(isinstance(s2, (ast.Raise, ast.Assert, ast.Pass)) for s2 in st.body) and not st.orelse):
+                    self._touch(st)
+            elif isinstance(st, (ast.For, ast.While, ast.With, ast.Try, ast.AugAssign, ast.Delete)):
+                self._touch(st)
+            elif isinstance(st, ast.Expr) and not isinstance(st.value, ast.Constant):
+                self._touch(st)
+
+    def _touch(self, st):
+        """a module-level statement that is not a plain binding: the names it may bind or mutate (stores, receivers of
+        mutating method calls) are not the value of their defining assignment any more.  A name merely passed to a function
+        (import-time sanity checks do that) is not counted: mutation of an argument by a callee is C20's subject"""
+        probe = ModuleProbe()
+        probe.toplevel_touched = {}
+        ModuleInfo._touch_names(probe, st)
+        for nm, ln in probe.toplevel_touched.items():
+            self.toplevel_touched.setdefault(nm, ln)
+            self.toplevel_touching.setdefault(nm, []).append(st)
+
+    def _touch_names(self, st):
+        for n in ast.walk(st):
+            if isinstance(n, ast.Name) and isinstance(n.ctx, (ast.Store, ast.Del)):
+                self.toplevel_touched.setdefault(n.id, st.lineno)
+            elif isinstance(n, (ast.Attribute, ast.Subscript)) and isinstance(n.ctx, (ast.Store, ast.Del)):
+                b = n.value
+                while isinstance(b, (ast.Attribute, ast.Subscript)):
+                    b = b.value
+                if isinstance(b, ast.Name):
+                    self.toplevel_touched.setdefault(b.id, st.lineno)
+            elif isinstance(n, ast.Call):
+                if isinstance(n.func, ast.Attribute) and n.func.attr in _MUTATORS:
+                    b = n.func.value
+                    while isinstance(b, (ast.Attribute, ast.Subscript)):
+                        b = b.value
+                    if isinstance(b, ast.Name):
+                        self.toplevel_touched.setdefault(b.id, st.lineno)
 
     def _bind_target(self, t, value, st):
         if isinstance(t, ast.Name):
@@ -201,6 +238,18 @@ class ModuleInfo:
                     self._bind(e.id, "assign", (value, i, st))
                 else:
                     raise AnalysisError(f"{self.relpath}:{st.lineno}: nested unpack at top level")
+
+
+class ModuleProbe:
+    pass
+
+
+_MUTATORS = {"append", "extend", "insert", "pop", "remove", "clear", "update", "setdefault", "add", "discard", "sort", "reverse",
+             "popitem", "appendleft", "extendleft", "popleft", "rotate", "move_to_end", "__setitem__", "__delitem__", "write",
+             "writelines", "put", "send", "fill", "difference_update", "intersection_update", "symmetric_difference_update"}
+_PURE_BUILTINS = {"range", "len", "int", "max", "min", "pow", "sum", "abs", "isinstance", "issubclass", "print", "repr", "str",
+                  "bytes", "tuple", "list", "dict", "set", "frozenset", "enumerate", "zip", "reversed", "sorted", "all", "any",
+                  "divmod", "bool", "float", "hash", "id", "type", "iter", "next", "map", "filter", "round", "bin", "hex", "ord", "chr"}
 
 
 class Repo:
